@@ -26,7 +26,8 @@ META = {
         ' Also: class-level containers mutated through instances, cache lookup key is the raw input, parser input does not derive from committed results, frozen MasterConfig fallbacks.'
         " Round 7: rule MEMO over the whole package - a result cache is keyed by everything the skipped computation reads (by value, not identity / length) and a hit restores every attribute a miss sets; lru_cache'd functions depend on their parameters only."
         ' Round 8: MEMO also sees last-key caches, chained stores and fills that ignore the condition of their look-up; a Config object is not rewritten in place.'
-        ' Round 9: _UNDEF_* / _ERR_* placeholders are rebuilt from parts of their own kind; a filtered **kwargs dict does not fall back to an import-time MasterConfig default.'),
+        ' Round 9: _UNDEF_* / _ERR_* placeholders are rebuilt from parts of their own kind; a filtered **kwargs dict does not fall back to an import-time MasterConfig default.'
+        ' Round 10: a class-level store targets an attribute the class declares or the package reads (`cls._CACHE = {}` beside `TRS.__CACHE` is reported); evicting entries of a memo is not a mutation of shared state.'),
     'families': ['ESCAPE', 'GLOBALS', 'PURITY', 'FORWARD', 'DEADPARAM', 'SIB-DEFAULTS'],
 }
 
@@ -130,6 +131,7 @@ def check(ctx):
                 'plssdesc/plss_preprocess.py', 'plssdesc/plss_parse.py')
     ctx.attempt(_globals_inventory)
     ctx.attempt(_class_writes)
+    ctx.attempt(_class_stores_nobody_reads)
     ctx.attempt(_mutable_defaults)
     ctx.attempt(_class_level_containers)
     ctx.attempt(calltime_defaults)
@@ -206,6 +208,14 @@ def _globals_inventory(ctx):
                     # whether it changes results depends on the key, not decided here
                     ctx.undecided('GLOBALS', f"{fi.qualname}: `{tgt.id}{how}` on module-level `{name}`",
                                   "item store into a module-level mapping (memo / registry idiom): harmless iff keyed by the complete input")
+                    continue
+                if is_mut and how in ('.clear()', '.pop()', '.popitem()') and any(
+                        isinstance(x, ast.Subscript) and isinstance(x.ctx, ast.Store) and isinstance(x.value, ast.Name)
+                        and x.value.id == name for x in ast.walk(fi.node)):
+                    # eviction from the mapping this very function fills by key (a bounded memo):
+                    # removing an entry only forces a recomputation; the key is judged by MEMO
+                    ctx.ok('GLOBALS', f"{fi.qualname}: `{tgt.id}{how}` on module-level `{name}`",
+                           'evicts entries of the mapping the function fills by key (memo); see MEMO for the key')
                     continue
                 ctx.check(not is_mut, 'GLOBALS',
                           f"{fi.qualname}: `{tgt.id}{how}` on module-level `{name}`",
@@ -535,3 +545,68 @@ def _cache_purity(ctx):
                 readers.add(f2.qualname)
     ctx.check(readers <= {'TRS._cache_trs_to_dict', cache_writer(ctx).qualname}, 'PURITY', '_USE_CACHE only gates the cache write',
               detail_bad=f"_USE_CACHE is read by {sorted(readers)}", key="PURITY|_USE_CACHE|readers")
+
+
+def _class_stores_nobody_reads(ctx):
+    """`cls.X = value` / `Class.X = value` where no code of the package ever
+    reads an attribute called X and the class body does not declare it: the
+    store creates a new attribute next to the one that was meant (`cls._CACHE
+    = {}` beside `TRS.__CACHE`), and the state it was meant to reset stays as
+    it was."""
+    read = set()
+    for mod in ctx.repo.modules.values():
+        for x in ast.walk(mod.tree):
+            if isinstance(x, ast.Attribute) and isinstance(x.ctx, ast.Load):
+                read.add(x.attr)
+            elif isinstance(x, ast.Call) and dotted(x.func) in ('getattr', 'hasattr') and len(x.args) >= 2 \
+                    and isinstance(x.args[1], ast.Constant):
+                read.add(x.args[1].value)
+    dynamic = any(isinstance(x, ast.Call) and dotted(x.func) == 'getattr' and len(x.args) >= 2
+                  and not isinstance(x.args[1], ast.Constant)
+                  for mod in ctx.repo.modules.values() for x in ast.walk(mod.tree))
+    n = 0
+    for fi in ctx.repo.funcs.values():
+        if fi.module.name.startswith('pytrs.interface_tools'):
+            continue
+        top = fi
+        while top.outer is not None:
+            top = top.outer
+        for st in walk_local(fi.node):
+            if not isinstance(st, ast.Assign):
+                continue
+            for t in st.targets:
+                if not (isinstance(t, ast.Attribute) and isinstance(t.value, ast.Name)):
+                    continue
+                base = t.value.id
+                ci = None
+                if base == 'cls' and top.cls is not None:
+                    ci = top.cls
+                elif base[:1].isupper():
+                    ci = next((c for c in ctx.repo.classes.values() if c.name == base), None)
+                if ci is None:
+                    continue
+                declared = set()
+                for c in ctx.repo.mro(ci):
+                    for b in c.node.body:
+                        if isinstance(b, ast.Assign):
+                            declared |= {x.id for tt in b.targets for x in ast.walk(tt) if isinstance(x, ast.Name)}
+                        elif isinstance(b, ast.AnnAssign) and isinstance(b.target, ast.Name):
+                            declared.add(b.target.id)
+                n += 1
+                if t.attr in read or t.attr in declared:
+                    continue
+                near = sorted(d for d in declared if d.strip('_').lower() == t.attr.strip('_').lower())
+                if dynamic and not near:
+                    ctx.undecided('GLOBALS', f"{fi.qualname}: `{norm(t)}` is an attribute that is read somewhere",
+                                  'no literal read found, but the package reads attributes by computed name')
+                    continue
+                ctx.violation('GLOBALS', f"{fi.qualname}: `{norm(t)}` is an attribute that is read somewhere",
+                              f"`{norm(st)[:70]}` stores into `{t.attr}`, which {ci.name} does not declare and nothing in the package reads"
+                              + (f" (the class declares `{near[0]}`)" if near else '') +
+                              ": the state this statement was meant to replace keeps its old content - a cache that is 'cleared' "
+                              "this way still serves entries computed under the previous configuration",
+                              key=f"GLOBALS|{fi.qualname}|{t.attr}|store-nobody-reads", where=common.loc(fi, st))
+    if n:
+        ctx.ok('GLOBALS', 'every class-level attribute store targets an attribute the class declares or the package reads',
+               f"{n} stores (`cls.X = ...` / `Class.X = ...`)")
+    return n
